@@ -403,3 +403,26 @@ pub proof fn lemma_type_done_step(list: Seq<VehicleTypeIdx>, k: int)
         if x == list[k] { assert(0 <= k < k + 1 && list[k] == x); }
     }
 }
+
+// =====================================================================================================
+// improve_depots_of_tour / improve_depots
+// =====================================================================================================
+
+/// C13 "depot-only operations change no activity": `t` is the tour `o` with (possibly) another start depot node and
+/// (possibly) another end depot node -- members of the network's start / end depot node lists -- and nothing else
+/// changed; it is a valid tour again (C01) with exact caches (C09)
+pub open spec fn depots_replaced(net: &Network, o: &Tour, t: &Tour) -> bool {
+    &&& t.nodes@ == o.nodes@.update(0, sp_start_depot(t)).update(o.nodes@.len() - 1, sp_end_depot(t))
+    &&& t.is_dummy == o.is_dummy
+    &&& t.network == o.network
+    &&& net.start_depot_nodes@.contains(sp_start_depot(t))
+    &&& net.end_depot_nodes@.contains(sp_end_depot(t))
+    &&& t.wf()
+    &&& t.caches_ok()
+}
+/// ... in particular the activities are the same, in the same order
+pub proof fn lemma_replaced_same_activities(net: &Network, o: &Tour, t: &Tour)
+    requires depots_replaced(net, o, t), o.nodes@.len() >= 2,
+    ensures same_activities(o, t),
+{
+}
